@@ -178,7 +178,19 @@ const (
 	TIdent  TokKind = iota // includes keywords (Text decides)
 	TString                // Text is the *decoded* value, Raw the spelling
 	TPunct                 // one of : . = ! ( ) , -
+	// TIllegal is text that cannot be part of any sentence of the documented
+	// grammar outside a string: a character no token starts with (/ * + ; # ...),
+	// which includes Go-style comments. A sequence holding one is OUT.
+	TIllegal
 )
+
+// Ill makes an illegal lexeme (rendered verbatim).
+func Ill(s string) Tok { return Tok{Kind: TIllegal, Text: s} }
+
+// illegalStart: characters that start no token of the documented grammar.
+// (Digits, quotes other than ", backticks, control characters and invalid
+// UTF-8 stay "unspecified": the documentation is silent or ambiguous there.)
+const illegalStart = "/*+;#<>[]{}&|~@$%^?\\"
 
 type Tok struct {
 	Kind TokKind
@@ -337,6 +349,11 @@ func (v Verdict) String() string { return [...]string{"OUT", "IN", "UNSPECIFIED"
 // A bare keyword used as a Name is UNSPECIFIED (the grammar file admits it,
 // the public documentation is silent).
 func Recognise(toks []Tok) (Verdict, *Cond) {
+	for _, t := range toks {
+		if t.Kind == TIllegal {
+			return OUT, nil
+		}
+	}
 	p := &rp{toks: toks}
 	c, ok := p.cond()
 	if !ok || p.pos != len(toks) {
@@ -527,8 +544,10 @@ func (p *rp) basic() (*Basic, bool) {
 // Lex tokenises text in the documented lexical subset: identifiers, double
 // quoted strings with the escapes \" \\ \n \t \r \uXXXX \xXX, the punctuation
 // : . = ! ( ) , - and ASCII whitespace. ok=false means the text uses something
-// outside that subset (comments, raw strings, numbers, other escapes, control
-// characters, invalid UTF-8 ...) and no verdict is claimed for it.
+// outside that subset (raw strings, numbers, other escapes, control
+// characters, invalid UTF-8 ...) and no verdict is claimed for it. A character
+// that starts no documented token (which covers comments) ends the scan with a
+// TIllegal token: such a text is definitely not a sentence.
 func Lex(s string) (toks []Tok, ok bool) {
 	if !utf8.ValidString(s) {
 		return nil, false
@@ -609,6 +628,11 @@ func Lex(s string) (toks []Tok, ok bool) {
 			}
 			toks = append(toks, Tok{Kind: TString, Text: v, Raw: raw})
 			i = j + 1
+		case strings.ContainsRune(illegalStart, ch):
+			// everything before this point is in the documented subset, so this
+			// character is outside any string: the text is not a sentence,
+			// whatever follows
+			return append(toks, Ill(s[i:])), true
 		default:
 			return nil, false
 		}
